@@ -134,6 +134,25 @@ fn like_values<O: Modeled + Encode + 'static, A: Encode, B: Modeled + Encode + D
 			Err(_) => ("panic".to_string(), None),
 		};
 		ctx.emit("like-val", label, &format!("dec {} {}", B::ty(bytes.len() + 1), hex_or_dash(&bytes)), &ans);
+		// the same bytes as B through a reader of unknown length and under a generous depth limit
+		// (every catalogue pair nests at most 4 deep): still the same value
+		if let Some((b, _)) = &dv {
+			let want = val_string(b, true);
+			let r = std::panic::catch_unwind(std::panic::AssertUnwindSafe(|| {
+				let mut io = parity_scale_codec::IoReader(std::io::Cursor::new(&bytes[..]));
+				let a = B::decode(&mut io).ok().map(|x| val_string(&x, true));
+				let l = {
+					use parity_scale_codec::DecodeLimit;
+					B::decode_with_depth_limit(8, &mut &bytes[..]).ok().map(|x| val_string(&x, true))
+				};
+				(a, l)
+			}));
+			match r {
+				Ok((Some(a), Some(l))) if a == want && l == want => {},
+				Ok((a, l)) => ctx.oracle_fail("C16", format!("{}: bytes {} decode as the target from a slice but from a reader ok={} / under a depth limit of 8 ok={}", label, &hex_or_dash(&bytes)[..hex_or_dash(&bytes).len().min(40)], a.is_some(), l.is_some())),
+				Err(_) => ctx.oracle_fail("C16", format!("{}: decoding the alias bytes from a reader / under a depth limit panicked", label)),
+			}
+		}
 		// oracle (C16)
 		match dv {
 			Some((b, 0)) => {
@@ -204,6 +223,25 @@ pub fn like_stream(ctx: &mut Ctx) {
 	like_case!(ctx; Mixed, &'static Mixed => Box<Mixed>, false, |o| o);
 	like_case!(ctx; Named, Named => Arc<Named>, false, |o| o.clone());
 	like_case!(ctx; Transparent, &'static Transparent => Box<Transparent>, false, |o| o);
+	// many elements decoded as shared holders (in place, one after the other)
+	like_case!(ctx; [u32; 40], [u32; 40] => [Rc<u32>; 40], false, |o| *o);
+	like_case!(ctx; [u16; 33], [&'static u16; 33] => [Arc<u16>; 33], false, |o| core::array::from_fn(|i| &o[i]));
+	like_case!(ctx; [u8; 40], [Box<u8>; 40] => [Rc<u8>; 40], false, |o| core::array::from_fn(|i| Box::new(o[i])));
+	// a long &str with multi-byte characters across 16 KiB offsets decodes as String from every input
+	{
+		let mut s = "a".repeat(16383);
+		s.push_str("é€𝄞");
+		s.push_str(&"b".repeat(16384 - 9 + 2));
+		s.push_str("𝄞€é tail");
+		let bytes = s.as_str().encode();
+		let from_slice = String::decode(&mut &bytes[..]).ok();
+		let from_reader = String::decode(&mut parity_scale_codec::IoReader(std::io::Cursor::new(&bytes[..]))).ok();
+		let as_tuple = <(String, u8)>::decode(&mut parity_scale_codec::IoReader(std::io::Cursor::new(&(s.as_str(), 7u8).encode()[..]))).ok();
+		if from_slice.as_deref() != Some(&s[..]) || from_reader.as_deref() != Some(&s[..]) || as_tuple.as_ref().map(|t| (&t.0[..], t.1)) != Some((&s[..], 7)) {
+			ctx.oracle_fail("C16", format!("&str ({} bytes, multi-byte characters across 16 KiB offsets) as String: from a slice ok={} from a reader ok={} as a tuple field from a reader ok={}", s.len(), from_slice.is_some(), from_reader.is_some(), as_tuple.is_some()));
+		}
+		ctx.count("like:long-str", 1);
+	}
 	like_case!(ctx; Option<u32>, Option<&'static u32> => Option<u32>, false, |o| o.as_ref());
 	like_case!(ctx; Option<u32>, Option<Box<u32>> => Option<u32>, false, |o| o.map(Box::new));
 	like_case!(ctx; Result<u32, u8>, Result<&'static u32, &'static u8> => Result<u32, u8>, false, |o| o.as_ref());
